@@ -22,6 +22,16 @@ RULE = ("land/sea masks: exhaustively all masks of a 3x4 grid (quick: ocean dist
         "starts in every reachable sea cell, in picture and in tracker orientation; the real IBM.update_ibm under the real LADiM State with one "
         "fish per cell (X != Y) against the real Forcing; Forcing.velocity (the tracker's entry point); Forcing objects built by the real "
         "constructors from synthetic ROMS files with sub-grids, non-uniform pm and ocean_distance given or left at its default. "
+        "Added for long ways to the ocean (largest index about 120..330, on both sides of 127/128 and 255/256; every run starts with a closed "
+        "straight fjord of 140..200 cells): by the mask - straight one-cell fjords of 122..320 cells in grids of 2..5 rows (closed or between "
+        "two basins, with side arms / ponds), serpentines of 2..8 corridors, depth-first mazes of 8..13 x 8..13 rooms, inward spirals in "
+        "17..27-cell squares, fjords 2..3 cells wide with skerries under ocean distance 3..4 - and by the ocean distance - distances of "
+        "123..321 cells on 1..3-row open grids with land at one end (also grids too short to hold any ocean), distances 5..20 on 20..40-square "
+        "coasts; all in any of the 8 orientations; the mask handed over as int64/int32/int16/int8/uint8/bool/float64/float32 (also for "
+        "small random and thin masks, ocean distances 0..9); the same long masks through the real Grid/Forcing constructors with "
+        "ocean_distance configured or left at its default of 10 km on cells of 10 km/d (d in {125,128,160,200,250}); on these and on all "
+        "real-constructor cases the paths (0.45 cells per step) and IBM.update_ibm's retirement are judged with the independent BFS index. "
+        "An index beyond 32767 (16-bit) is not generated (the package's flood fill would need > 10^9 Python callbacks). "
         "Non-trivial: mask with at least one land and one sea cell.")
 ASSUMPTIONS = ["scipy generic_filter / binary_dilation are modelled by their documented semantics and checked against the real calls here"]
 SITE = "ladim_plugins/vps/gridforce.py::_compute_fish_velocity"
@@ -116,6 +126,180 @@ def gen_thin(rng):
     if rng.random() < 0.3 and k > 2:
         m[0, rng.randrange(k)] = 1
     return m.T.copy() if rng.random() < 0.5 else m
+
+
+# ---------------------------------------------------------------------------------------------------------------------
+# Long ways to the ocean: masks whose largest fjord index is of the order of 10^2 (beyond 127 and beyond 255, i.e. beyond
+# what a signed / unsigned 8-bit counter holds), reached through BOTH quantified dimensions that make the index large:
+# the mask (long / winding / wide fjords) and the ocean distance (a wide coastal zone on an open grid).  A 16-bit counter
+# (index > 32767) is out of reach: the package's flood fill costs (cells x index) Python callbacks (> 10^9 there).
+LONG_LEN_QUICK = [122, 125, 126, 127, 128, 129, 130, 140, 160, 200, 254, 256]
+LONG_LEN_THOROUGH = LONG_LEN_QUICK + [131, 180, 252, 253, 255, 257, 258, 280, 320]
+MASK_DTYPES = ["int64", "int64", "int32", "int8", "uint8", "bool", "float64", "float32", "int16"]
+
+
+def _orient(rng, m):
+    """any of the 8 orientations of the picture"""
+    if rng.random() < 0.5:
+        m = m.T
+    if rng.random() < 0.5:
+        m = m[::-1, :]
+    if rng.random() < 0.5:
+        m = m[:, ::-1]
+    return np.ascontiguousarray(m)
+
+
+def _with_basin(rng, block, d, mouth_row):
+    """put an open-sea basin of d .. d+2 columns (all rows) to the left of a land block whose mouth is the sea cell
+    block[mouth_row, 0]: the basin's outermost column is at least d cells from any land, so an open ocean exists for d >= 1"""
+    basin = np.zeros((block.shape[0], max(d, 1) + rng.randrange(0, 3)), dtype=int)
+    return np.concatenate([basin, block], axis=1)
+
+
+def gen_long_straight(rng, d, L, closed=None):
+    """a straight fjord of L cells, one cell wide, in a grid of 2..5 rows (the fjord may run along the grid edge), closed at
+    its end or opening on a second basin; a few extra sea cells (side arms, isolated ponds = unknown basins)"""
+    R = rng.choice([2, 3, 3, 4, 5])
+    row = rng.randrange(R)
+    block = np.ones((R, L + 1), dtype=int)
+    block[row, :L] = 0
+    closed = (rng.random() < 0.75) if closed is None else closed
+    if not closed:
+        block[row, L] = 0
+    for _ in range(rng.choice([0, 0, 1, 3, 6])):
+        block[rng.randrange(R), rng.randrange(L + 1)] = 0
+    m = _with_basin(rng, block, d, row)
+    if not closed:
+        m = np.concatenate([m, np.zeros((R, max(d, 1) + rng.randrange(0, 2)), dtype=int)], axis=1)
+    return _orient(rng, m)
+
+
+def gen_long_serpentine(rng, d, target):
+    """a serpentine of `a` one-cell-wide corridors of w cells with the mouth at the end of the first one: the sea path
+    from the innermost cell is about a*(w+1) >= target cells"""
+    a = rng.randrange(2, 9)
+    w = max(3, -(-target // a))
+    R, C = 2 * a + 1, w + 2
+    block = np.ones((R, C), dtype=int)
+    for i in range(a):
+        block[2 * i + 1, 1:w + 1] = 0
+        if i + 1 < a:
+            block[2 * i + 2, w if i % 2 == 0 else 1] = 0
+    block[1, 0] = 0
+    if rng.random() < 0.3:          # a second mouth at the far end: the innermost cell is in the middle
+        block[2 * a - 1, 0 if a % 2 == 0 else C - 1] = 0
+    return _orient(rng, _with_basin(rng, block, d, 1))
+
+
+def gen_long_maze(rng, d):
+    """a depth-first maze of one-cell-wide corridors, 8..13 x 8..13 rooms (17x17 .. 27x27 cells), one mouth"""
+    a = rng.randrange(8, 14); b = rng.randrange(8, 14)
+    R, C = 2 * a + 1, 2 * b + 1
+    block = np.ones((R, C), dtype=int)
+    start = (rng.randrange(a), 0)
+    seen = {start}; stack = [start]; block[2 * start[0] + 1, 1] = 0
+    while stack:
+        i, j = stack[-1]
+        nb = [(i + di, j + dj) for di, dj in ((1, 0), (-1, 0), (0, 1), (0, -1)) if 0 <= i + di < a and 0 <= j + dj < b and (i + di, j + dj) not in seen]
+        if not nb:
+            stack.pop(); continue
+        k = rng.choice(nb)
+        block[i + k[0] + 1, j + k[1] + 1] = 0; block[2 * k[0] + 1, 2 * k[1] + 1] = 0
+        seen.add(k); stack.append(k)
+    block[2 * start[0] + 1, 0] = 0
+    return _orient(rng, _with_basin(rng, block, d, 2 * start[0] + 1))
+
+
+def gen_long_spiral(rng, d, n):
+    """a one-cell-wide corridor spiralling inwards in an n x n land block (walk straight while the cell two ahead is land,
+    else turn right)"""
+    block = np.ones((n, n), dtype=int)
+    i, j = 1, 1; di, dj = 0, 1
+    block[1, 0] = 0; block[1, 1] = 0
+    while True:
+        moved = False
+        for _ in range(2):
+            a, b = i + di, j + dj; a2, b2 = i + 2 * di, j + 2 * dj
+            if 1 <= a <= n - 2 and 1 <= b <= n - 2 and block[a, b] == 1 and not (0 <= a2 < n and 0 <= b2 < n and block[a2, b2] == 0):
+                i, j = a, b; block[i, j] = 0; moved = True
+                break
+            di, dj = dj, -di
+        if not moved:
+            break
+    return _orient(rng, _with_basin(rng, block, d, 1))
+
+
+def gen_long_wide(rng, d, L):
+    """a fjord 2 or 3 cells wide and L cells long whose every cell is closer than d cells to land (d >= 3), with bends of
+    the coast line (single land cells in the fjord), on a basin tall and wide enough to hold open ocean"""
+    w = rng.choice([2, 3])
+    R = 2 * d + 3
+    top = rng.randrange(1, R - w)
+    block = np.ones((R, L + 1), dtype=int)
+    block[top:top + w, :L] = 0
+    for _ in range(rng.choice([0, 2, 5])):      # skerries / narrows (two in one column of a 2-wide fjord close it: a basin without a path)
+        block[top + rng.randrange(w), rng.randrange(2, L)] = 1
+    basin = np.zeros((R, 2 * d + 1 + rng.randrange(0, 2)), dtype=int)
+    return _orient(rng, np.concatenate([basin, block], axis=1))
+
+
+def gen_big_distance(rng, d):
+    """a LARGE ocean distance (a coastal zone of d cells) on a thin or small open grid with land at one end: the cell next
+    to the land is d - 1 cells from the open ocean (no fjord needed).  Grids shorter than d have no open ocean at all."""
+    R = rng.choice([1, 1, 2, 3])
+    N = d + (rng.randrange(2, 12) if rng.random() < 0.85 else -rng.randrange(1, 10))
+    m = np.zeros((R, max(N, 2)), dtype=int)
+    if rng.random() < 0.6:
+        m[:, 0] = 1
+    else:
+        m[rng.randrange(R), 0] = 1
+    for _ in range(rng.choice([0, 0, 1, 2])):   # a skerry in the coastal zone: obstacle on the way out
+        m[rng.randrange(R), rng.randrange(1, min(6, m.shape[1]))] = 1
+    return _orient(rng, m)
+
+
+def gen_mid_distance(rng, d):
+    """ocean distances 5 .. 20 on a mid-size grid (20..40 square) with a coast line and a few islands"""
+    r = rng.randrange(20, 41); c = rng.randrange(20, 41)
+    m = np.zeros((r, c), dtype=int)
+    m[:, : rng.randrange(1, 4)] = 1
+    for _ in range(rng.randrange(0, 6)):
+        m[rng.randrange(r), rng.randrange(c // 2)] = 1
+    if rng.random() < 0.5:          # a fjord cut into the coast
+        m[:, : c // 3] = 1; m[rng.randrange(r), : c // 3] = 0
+    return _orient(rng, m)
+
+
+LONG_KINDS = ["straight", "big_distance", "serpentine", "maze", "straight", "spiral", "wide", "big_distance", "mid_distance"]
+
+
+def gen_long(ctx, kind, first):
+    """(land, d) of the family `kind`; `first`: the first case of a run is a closed straight fjord of 140..200 cells (every
+    run, whatever the seed, has an index beyond 127)"""
+    rng = ctx.rng
+    lens = LONG_LEN_QUICK if ctx.tier == "quick" else LONG_LEN_THOROUGH
+    if kind == "straight":
+        d = rng.choice([2, 2, 3, 4])
+        land = gen_long_straight(rng, d, rng.choice([140, 160, 200]), closed=True) if first else gen_long_straight(rng, d, rng.choice(lens))
+    elif kind == "serpentine":
+        d = rng.choice([2, 2, 3])
+        land = gen_long_serpentine(rng, d, rng.choice(lens))
+    elif kind == "maze":
+        d = rng.choice([2, 2, 3])
+        land = gen_long_maze(rng, d)
+    elif kind == "spiral":
+        d = rng.choice([2, 2, 3])
+        land = gen_long_spiral(rng, d, rng.choice([17, 19, 21, 23] if ctx.tier == "quick" else [17, 19, 21, 23, 25, 27]))
+    elif kind == "wide":
+        d = rng.choice([3, 4])
+        land = gen_long_wide(rng, d, rng.choice([x for x in lens if x <= 260]))
+    elif kind == "big_distance":
+        d = rng.choice([x + 1 for x in lens])
+        land = gen_big_distance(rng, d)
+    else:
+        d = rng.randrange(5, 21)
+        land = gen_mid_distance(rng, d)
+    return land.astype(rng.choice(MASK_DTYPES)), d
 
 
 def land_distance(land):
@@ -354,6 +538,8 @@ def served_checks(ctx, V, F, land, fi, u, v, fu_raw, fv_raw, i0, j0, cs, deep):
 
 def check_mask(ctx, drv, pend, V, G, land, d, exhaustive=False, deep=False):
     cs = dict(land=land.tolist(), ocean_dist=d)
+    if land.dtype != np.dtype("int64"):
+        cs["mask_dtype"] = str(land.dtype)
     ctx.case(key=(land.tobytes(), land.shape, d), nontrivial=bool(land.any() and not land.all()))
     land_before = land.copy()
     fi = V.fjord_index(land, d)
@@ -398,14 +584,74 @@ def check_mask(ctx, drv, pend, V, G, land, d, exhaustive=False, deep=False):
     if drv.available:
         toks = "%d %d %d %s" % (d, r, c, " ".join(str(int(x)) for x in land.ravel()))
         pend.append((drv.ask("fjord.index", toks), fi, u, v, cs))
+    return F, i0, j0
 
 
-def check_real_forcing(ctx, V, G, tmp, num):
+def reference_checks(ctx, V, F, ref, i0, j0, cs):
+    """the conclusion of the property judged with the independently computed shortest-path index `ref` (bfs_reference), not
+    with the package's own fjord_index: from every sea cell with a way to the ocean the fish, stepped as the tracker does
+    (0.45 cells per step, picture orientation of v: the tracker orientation is the known finding F-C12a and is judged in
+    served_checks), comes one cell closer per cell, never meets a zero velocity (= retirement) before the ocean and arrives;
+    and the real IBM.update_ibm retires exactly the fish in ocean cells."""
+    r, c = ref.shape
+    nf = int((ref > 0).sum())
+    if nf:
+        k = 0.45 / SPEED
+        R = np.random.RandomState(ctx.sub_seed())
+        po = (R.uniform(-0.4, 0.4, nf), R.uniform(-0.4, 0.4, nf))
+        bad = sorted(follow_paths(F, ref, i0, j0, k, -1.0, po).items())
+        for (i, j), what in bad[:3]:
+            ctx.oracle(False, "C12.follow.reference_path_not_reaching_ocean", SITE,
+                       "path from cell (row %d, col %d), %d cells from the ocean by the shortest sea path, stepping X += u*k, Y -= v*k (k=%r): %s (%d of %d start cells fail)"
+                       % (i, j, ref[i, j], k, what, len(bad), nf), dict(cs, cell=[i, j], dt_over_dx=k, start_offsets=[po[0].tolist(), po[1].tolist()]))
+        ctx.branch("reference_paths")
+    YY, XX = np.meshgrid(np.arange(r, dtype=float), np.arange(c, dtype=float), indexing="ij")
+    R = np.random.RandomState(ctx.sub_seed())
+    ox = R.uniform(-0.45, 0.45, r * c); oy = R.uniform(-0.45, 0.45, r * c)
+    ibm = V.IBM(dict(dt=600.0, ibm=dict()))
+    state = real_state(dt=600.0, X=XX.ravel() + i0 + ox, Y=YY.ravel() + j0 + oy, Z=np.full(r * c, 1.0), age=np.zeros(r * c))
+    keep = np.random.get_state()
+    try:
+        ibm.update_ibm(Obj(), state, Obj(forcing=F))
+    finally:
+        np.random.set_state(keep)
+    alive = np.asarray(state["alive"]).astype(bool).reshape(r, c)
+    for wrong, pid, txt in (((ref == 0) & alive, "C12.retire.ocean_fish_not_retired", "is in the open ocean but still alive after update_ibm"),
+                            ((ref > 0) & ~alive, "C12.retire.fish_retired_before_ocean", "has a sea path to the ocean ahead of it but is retired by update_ibm")):
+        if wrong.any():
+            i, j = [int(t[0]) for t in np.nonzero(wrong)]
+            ctx.oracle(False, pid, SITE_IBM, "fish at X-i0=%r, Y-j0=%r in cell (row %d, col %d), %d cells from the ocean by the shortest sea path, %s (%d such fish)"
+                       % (j + ox[i * c + j], i + oy[i * c + j], i, j, ref[i, j], txt, int(wrong.sum())), dict(cs, cell=[i, j], judged_by="independent BFS index"))
+    ctx.branch("reference_retire")
+
+
+def check_long(ctx, drv, pend, V, G, land, d, kind, deep):
+    """a mask / ocean distance with a long way to the ocean: everything check_mask checks, plus the paths and the retirement
+    judged with the independent index"""
+    ref = bfs_reference(land, d)
+    F, i0, j0 = check_mask(ctx, drv, pend, V, G, land, d, deep=deep)
+    cs = dict(land=land.tolist(), ocean_dist=d, i0=i0, j0=j0, mask_dtype=str(land.dtype), family=kind)
+    reference_checks(ctx, V, F, ref, i0, j0, cs)
+    mx = int(ref.max())
+    ctx.branch("long_" + kind); ctx.branch("mask_dtype_" + str(land.dtype))
+    ctx.size("max_index_class", "<=127" if mx <= 127 else "128..255" if mx <= 255 else ">=256")
+    if 120 <= mx <= 135 or 250 <= mx <= 260:
+        ctx.size("max_index_near_8bit_limit", mx)
+    ctx.size("long_ocean_dist", d if d <= 20 else ">20")
+    if (ref == -1).any():
+        ctx.branch("long_with_unknown_basin")
+
+
+def check_real_forcing(ctx, V, G, tmp, num, given=None):
     """Grid and Forcing built by the real constructors from a synthetic ROMS file: sub-grid offsets, the mask and dx as the
     real Grid provides them, `ocean_distance` read from the configuration or left at its default (10 km)"""
     import netCDF4
     use_default = ctx.rng.random() < 0.35
-    if use_default:
+    if given is not None:
+        # a long way to the ocean through the real constructors: the mask and the distance in cells are given; with
+        # use_default the cell size is chosen so that the default 10 km is that many cells (10 km / d, e.g. 50 m for 200)
+        land, dgiven, use_default = given
+    elif use_default:
         # the default (10 km) is 2..7 cells on the cell sizes used below: mostly open water with a few islands / a headland,
         # so that an open ocean exists
         land = np.zeros((ctx.rng.randrange(9, 15), ctx.rng.randrange(9, 15)), dtype=int)
@@ -424,6 +670,8 @@ def check_real_forcing(ctx, V, G, tmp, num):
     path = os.path.join(tmp, "vps%d.nc" % num)
     romsfile.write_roms(path, ctx.rng, nx=nx, ny=ny, N=3, fields=(), mask=rho)
     dx00 = ctx.rng.choice([1500.0, 2200.0, 3000.0, 5000.0]) if use_default else ctx.rng.choice([160.0, 800.0, 4000.0])
+    if given is not None and use_default:
+        dx00 = 10000.0 / dgiven
     R = np.random.RandomState(ctx.sub_seed())
     dxf = dx00 * R.uniform(0.5, 1.5, (ny, nx)); dxf[pt, pl] = dx00
     with netCDF4.Dataset(path, "r+") as ds:
@@ -437,7 +685,7 @@ def check_real_forcing(ctx, V, G, tmp, num):
     if use_default:
         d = None; km = 10
     else:
-        d = ctx.rng.choice([0, 1, 2, 2, 3, 4])
+        d = ctx.rng.choice([0, 1, 2, 2, 3, 4]) if given is None else dgiven
         delta = ctx.rng.choice([-0.45, -0.2, 0.0, 0.3, 0.45] if d >= 1 else [0.0, 0.2, 0.45])
         km = (d + delta) * dx00 / 1000
         gf["ocean_distance"] = km
@@ -462,8 +710,16 @@ def check_real_forcing(ctx, V, G, tmp, num):
                "Forcing built from the configuration (ocean_distance %s, dx[0,0]=%r m => %d cells): the served field is not the one of that ocean distance"
                % ("absent, default 10 km" if use_default else "%r km" % km, float(g.dx[0, 0]), d), dict(cs, u=fu_raw.tolist(), v=fv_raw.tolist()))
     check_ocean_region(ctx, fi, land, d, cs)
+    # the index behind the served field is the shortest-path length (independent BFS), also for Forcing objects built by the
+    # real constructors; paths and retirement judged with that independent index
+    ref = bfs_reference(land, d)
+    ctx.oracle(np.array_equal(fi, ref), "C12.fjord_index.not_shortest_path", SITE_FI,
+               "fjord index differs from the BFS distance to the open ocean", dict(cs, got=np.asarray(fi).tolist(), want=ref.tolist()))
     judge_cells(ctx, fi, np.sign(fu_raw).astype(int), np.sign(fv_raw).astype(int), cs)
     served_checks(ctx, V, F, land, fi, u, v, fu_raw, fv_raw, pl, pt, cs, True)
+    reference_checks(ctx, V, F, ref, pl, pt, cs)
+    if given is not None:
+        ctx.branch("real_long_way"); ctx.size("real_long_max_index_gt_127", int(ref.max() > 127))
     ctx.branch("real_constructors"); ctx.branch("real_default_ocean_distance" if use_default else "real_configured_ocean_distance")
     ctx.branch("real_subgrid" if not default_sub else "real_whole_grid")
 
@@ -504,11 +760,34 @@ def run(ctx):
         land = gen_thin(ctx.rng)
         check_mask(ctx, drv, pend, V, G, land, ctx.rng.choice([0, 1, 2, 2, 3]), deep=True)
         ctx.branch("thin"); ctx.size("thin_shape", "%dx%d" % land.shape)
+    # long ways to the ocean (largest index ~ 120 .. 330): by the mask (long, winding, wide fjords) and by the ocean distance
+    for c in range(ctx.n(18, 180)):
+        kind = LONG_KINDS[c % len(LONG_KINDS)]
+        land, d = gen_long(ctx, kind, c == 0)
+        check_long(ctx, drv, pend, V, G, land, d, kind, deep=(c % 3 == 0))
+    # the same small random masks handed over in other element types (bool, 8/16/32-bit, float)
+    for c in range(ctx.n(30, 400)):
+        land = (gen_mask(ctx.rng) if c % 3 else gen_thin(ctx.rng)).astype(ctx.rng.choice([t for t in MASK_DTYPES if t != "int64"]))
+        check_mask(ctx, drv, pend, V, G, land, ctx.rng.choice([0, 1, 2, 3, 4, 6, 9]), deep=(c % 2 == 0))
+        ctx.branch("mask_dtype"); ctx.branch("mask_dtype_" + str(land.dtype))
     # Grid / Forcing built by the real constructors
     tmp = tempfile.mkdtemp(prefix="verif_c12_")
     try:
         for c in range(ctx.n(12, 100)):
             check_real_forcing(ctx, V, G, tmp, c)
+        # ... with a long way to the ocean: ocean_distance configured (fjords) or left at its default of 10 km on small cells
+        for c in range(ctx.n(3, 24)):
+            use_default = (c % 3 == 1)
+            if use_default:
+                dcells = ctx.rng.choice([125, 128, 160, 200, 250])      # 10 km / dcells is exact in binary64 or rounds harmlessly
+                land = gen_big_distance(ctx.rng, dcells)
+                if land.shape[0] < 3 or land.shape[1] < 3:              # the ROMS grid needs >= 3 interior rows / columns
+                    land = np.repeat(land, 3, axis=0) if land.shape[0] < 3 else np.repeat(land, 3, axis=1)
+            else:
+                kind = ["straight", "serpentine", "spiral"][(c // 3 + c) % 3]
+                land, dcells = gen_long(ctx, kind, c == 0)
+                land = land.astype(int)
+            check_real_forcing(ctx, V, G, tmp, 1000 + c, given=(land, dcells, use_default))
     finally:
         shutil.rmtree(tmp, ignore_errors=True)
     if drv.available:
